@@ -567,4 +567,100 @@ func genC02(cs *CaseSet, rng *Rng, tier string, dir string) {
 		cs.Add(Case{Kind: "folder-upload-" + u.kind, Ops: []Op{mkOp(5, "folder-upload", args...)},
 			Obs: [][][]byte{obs}, NonTrivial: len(u.script) >= 2})
 	}
+
+	// ---- folder downloads: the CLIENT's side of a folder download (initial action, per item an action - send,
+	// resume with a two-fork resume record, skip - and the word after every file) written ahead under a scripted
+	// segmentation; what the server sends back must be what it sends when the same bytes arrive in one piece
+	{
+		droot := filepath.Join(env.FileRoot, "dlfolder")
+		must(os.MkdirAll(filepath.Join(droot, "inner"), 0755))
+		must(os.WriteFile(filepath.Join(droot, "a.bin"), patBytes(3000, 1), 0644))
+		must(os.WriteFile(filepath.Join(droot, "b.bin"), patBytes(5000, 2), 0644))
+		must(os.WriteFile(filepath.Join(droot, "inner", "c.bin"), patBytes(700, 3), 0644))
+		must(os.WriteFile(filepath.Join(droot, "z.bin"), patBytes(1200, 4), 0644))
+		// items in walk order: a.bin, b.bin, inner, inner/c.bin, z.bin
+		resume := func(off int) []byte { // a resume record with a DATA and a MACR entry (74 bytes)
+			b := []byte("RFLT")
+			b = append(b, 0, 1)
+			b = append(b, make([]byte, 34)...)
+			b = append(b, 0, 2)
+			b = append(b, []byte("DATA")...)
+			b = append(b, be32(off)...)
+			b = append(b, make([]byte, 8)...)
+			b = append(b, []byte("MACR")...)
+			b = append(b, make([]byte, 12)...)
+			return append(be16(len(b)), b...)
+		}
+		var client []byte
+		client = append(client, 0, 3)                                     // initial action
+		client = append(client, 0, 1, 0, 3)                               // a.bin: send, then the word after the file
+		client = append(client, append([]byte{0, 2}, resume(1234)...)...) // b.bin: resume at 1234
+		client = append(client, 0, 3)                                     // word after b.bin
+		client = append(client, 0, 1)                                     // inner: a folder
+		client = append(client, 0, 3)                                     // inner/c.bin: skip
+		client = append(client, append([]byte{0, 2}, resume(1200)...)...) // z.bin: resume at its end
+		client = append(client, 0, 3)
+		run := func(script []int) []byte {
+			t := hotline.NewTransaction(hotline.TranDownloadFldr, admin.ID, hotline.NewField(hotline.FieldFileName, []byte("dlfolder")))
+			res, _ := callHandler(mobius.HandleDownloadFolder, admin, &t)
+			if len(res) != 1 || isErrReply(res) {
+				panic("folder download refused")
+			}
+			stream := append(c10Preamble(res[0].GetField(hotline.FieldRefNum).Data), client...)
+			cl, sv := net.Pipe()
+			done := make(chan struct{})
+			go func() {
+				env.Srv.VerifHandleFileTransfer(context.Background(), sv, "10.3.0.1:4")
+				sv.Close()
+				close(done)
+			}()
+			var out []byte
+			rd := make(chan struct{})
+			go func() {
+				defer close(rd)
+				b, _ := io.ReadAll(cl)
+				out = b
+			}()
+			cl.SetWriteDeadline(time.Now().Add(10 * time.Second))
+			b := stream
+			for _, k := range script {
+				if k > len(b) {
+					k = len(b)
+				}
+				if k == 0 {
+					continue
+				}
+				if _, err := cl.Write(b[:k]); err != nil {
+					break
+				}
+				b = b[k:]
+			}
+			if len(b) > 0 {
+				cl.Write(b)
+			}
+			select {
+			case <-done:
+			case <-time.After(8 * time.Second):
+				cl.Close()
+			}
+			<-rd
+			cl.Close()
+			return out
+		}
+		env.StartDrain()
+		total := 16 + len(client)
+		ref := run([]int{total})
+		scs := segScripts(rng, total, 0)
+		scs["cut-in-resume-record"] = []int{16 + 2 + 4 + 2 + 2 + 58, 3, 13, total}
+		scs["cut-in-second-resume-record"] = []int{total - 2 - 10, 5, total}
+		for name, sc := range scs {
+			if name == "all-at-once" {
+				continue
+			}
+			out := run(append([]int{}, sc...))
+			cs.Add(Case{Kind: "folder-download-" + name, Ops: []Op{mkOp(6, "folder-download-client", client, scriptBytes(sc), ref)},
+				Obs: [][][]byte{{out}}, NonTrivial: len(sc) >= 2})
+		}
+		env.StopDrain()
+	}
 }
